@@ -92,6 +92,14 @@ theorem lsDJ_base {l : List Frame} (h : LsAllB l) : lsum lsDJ l = 0 := by
     have : lsDJ a = 0 := by cases a <;> first | rfl | (have := h.1; simp [lsB] at this)
     simp only [lsum_cons, this, ih h.2]
 
+theorem lsM2_base {l : List Frame} (h : LsAllB l) : lsum lsM2 l = 0 := by
+  induction l with
+  | nil => rfl
+  | cons a l ih =>
+    rw [lsAllB_cons] at h
+    have : lsM2 a = 0 := by cases a <;> first | rfl | (have := h.1; simp [lsB] at this)
+    simp only [lsum_cons, this, ih h.2]
+
 theorem lsRA_base {l : List Frame} (h : LsAllB l) : lsum lsRA l = 0 := by
   induction l with
   | nil => rfl
@@ -101,14 +109,17 @@ theorem lsRA_base {l : List Frame} (h : LsAllB l) : lsum lsRA l = 0 := by
     simp only [lsum_cons, this, ih h.2]
 
 structure LseShapeN (s s' : State) (t : Tid) (fr : Frame) : Prop where
-  e1 : ∀ log, s'.pool.isSome = true → lsAt log s' t + lsSpawnW fr + lsTc s = lsAt log s t + lsTc s'
+  e1 : ∀ log, s'.pool.isSome = true → (1 ≤ lsDjAt s' t → 1 ≤ lsDjAt s t) →
+        lsAt log s' t + lsSpawnW fr + lsTc s = lsAt log s t + lsTc s'
   e2 : ∀ log, s'.pool.isSome = true → ncFr fr = true → (1 ≤ lsDjAt s' t → 1 ≤ lsDjAt s t) →
         lsAt log s' t + lsSpawnW fr = lsAt log s t ∧ lsTc s' = lsTc s
   dk : s'.pool.isSome = true → 1 ≤ lsDjAt s t → 1 ≤ lsDjAt s' t
   dd : ∀ log, s'.pool.isSome = true → 1 ≤ lsDjAt s' t → 1 ≤ lsDjAt s t ∨
         (bottomFr fr = true ∧ lsSpawnW fr = 0 ∧ lsTc s' = lsTc s ∧
           (lsM2At s t ≤ lsTc s → lsAt log s' t + lsTc s = lsAt log s t))
-  m2 : s'.pool.isSome = true → ncFr fr = true → lsM2At s t ≤ lsTc s → lsM2At s' t ≤ lsTc s'
+  m2 : s'.pool.isSome = true → (ncFr fr = true → lsM2At s t ≤ lsTc s → lsM2At s' t ≤ lsTc s') ∧
+        (ncFr fr = false → lsM2At s' t ≤ lsM2At s t)
+  nth0 : s'.pool.isSome = true → s'.nthreads = s.nthreads → lsSpawnW fr = 0
   ra : s'.pool.isSome = true → 1 ≤ lsRaAt s' t →
         lsMinT s' < lsTc s' ∨ (1 ≤ lsRaAt s t ∧ lsTc s ≤ lsTc s')
   dec : s'.pool.isSome = true → (lsTc s' < lsTc s → fr = .runRetAfter) ∧ lsMinT s' = lsMinT s
@@ -121,6 +132,9 @@ theorem lseShapeN (s : State) (t : Tid) (th : Thread) (fr : Frame) (rest : List 
     (hcb : lseC fr = true → LsAllB rest)
     (htc : fr = .runRetAfter → th.retB = true → 0 < lsTc s) :
     LseShapeN s (stepFrame s t th fr).1 t fr := by
+  have hR : lseC fr = true → lsum lsRA rest = 0 := fun h => lsRA_base (hcb h)
+  have hD : lseC fr = true → lsum lsDJ rest = 0 := fun h => lsDJ_base (hcb h)
+  have hM : lseC fr = true → lsum lsM2 rest = 0 := fun h => lsM2_base (hcb h)
   cases fr
   case ring pc => cases hnr
   case mInit => exact absurd rfl hni
@@ -131,16 +145,17 @@ theorem lseShapeN (s : State) (t : Tid) (th : Thread) (fr : Frame) (rest : List 
       simp only [stepFrame, htp, if_true]
       constructor
       · intro log
-        simp [lsAt, lsVal, lsW, lsTc, hp, hth, hst, setThread, upd_same, Thread.cont, lsFr, lsRingOf, lsSpawnW]
+        simp [lsDjAt, lsDJ, lsAt, lsVal, lsW, lsTc, hp, hth, hst, setThread, upd_same, Thread.cont, lsFr, lsRingOf, lsSpawnW]
       · intro log
         simp [lsDjAt, lsDJ, lsAt, lsVal, lsW, lsTc, hp, hth, hst, setThread, upd_same, Thread.cont, lsFr, lsRingOf, lsSpawnW, ncFr]
       · simp [lsDjAt, lsDJ, hp, hth, hst, setThread, upd_same, Thread.cont]
       · intro log
         simp [lsDjAt, lsDJ, lsAt, lsVal, lsW, lsTc, hp, hth, hst, setThread, upd_same, Thread.cont, lsFr, lsRingOf, lsSpawnW]
         try (intro h; exact Or.inl h)
-      · simp [ncFr]
+      · simp [ncFr, lsM2At, lsM2, hp, hth, hst, setThread, upd_same, Thread.cont]
+      · simp [lsSpawnW]
       · simp [lsRaAt, lsRA, lsTc, lsMinT, hp, hth, hst, setThread, upd_same, Thread.cont]
-        try (intro _ h; exact Or.inr h)
+        try (intro h; exact Or.inr h)
       · simp [lsTc, lsMinT, hp, setThread]
   case tExit =>
     have hB := hcb (by simp [lseC])
@@ -152,13 +167,14 @@ theorem lseShapeN (s : State) (t : Tid) (th : Thread) (fr : Frame) (rest : List 
       simp only [stepFrame]
       constructor
       · intro log
-        simp [lsAt, lsVal, lsW, lsTc, hp, hth, hst, setThread, upd_same, lsFr, lsRingOf, lsSpawnW, h0]
+        simp [lsDjAt, lsDJ, lsAt, lsVal, lsW, lsTc, hp, hth, hst, setThread, upd_same, lsFr, lsRingOf, lsSpawnW, h0]
       · intro log
         simp [lsDjAt, lsDJ, lsAt, lsVal, lsW, lsTc, hp, hth, hst, setThread, upd_same, lsFr, lsRingOf, lsSpawnW, h0]
       · simp [lsDjAt, lsDJ, hp, hth, hst, setThread, upd_same, h1]
       · intro log
         simp [lsDjAt, lsDJ, lsAt, lsVal, lsW, lsTc, hp, hth, hst, setThread, upd_same, lsFr, lsRingOf, lsSpawnW]
       · simp [lsM2At, lsM2, lsTc, hp, hth, hst, setThread, upd_same]
+      · simp [lsSpawnW]
       · simp [lsRaAt, lsRA, lsTc, lsMinT, hp, hth, hst, setThread, upd_same]
       · simp [lsTc, lsMinT, hp, setThread]
   all_goals
@@ -167,9 +183,13 @@ theorem lseShapeN (s : State) (t : Tid) (th : Thread) (fr : Frame) (rest : List 
     simp only [stepFrame, hp]
     repeat' split
   all_goals
+    try simp [lseC, lsC] at hR hD hM
+  all_goals
+    try simp [lsTc, hp] at htc
+  all_goals
     constructor
     · intro log
-      simp [lsAt, lsVal, lsW, lsTc, hp, hth, hst, hrep, setThread, setSig, setPool, setFut, withFault, destroySig,
+      simp [lsDjAt, lsDJ, lsAt, lsVal, lsW, lsTc, hp, hth, hst, hrep, setThread, setSig, setPool, setFut, withFault, destroySig,
         upd_same, Thread.cont, lsFr, lsRingOf, lsSpawnW, lsCapt, lsServ, lsCaptPc, lsServPc, setFsState_tc, *]
       try grind
     · intro log
@@ -188,6 +208,7 @@ theorem lseShapeN (s : State) (t : Tid) (th : Thread) (fr : Frame) (rest : List 
     · simp [lsM2At, lsM2, ncFr, lsTc, hp, hth, hst, hrep, setThread, setSig, setPool, setFut, withFault, destroySig,
         upd_same, Thread.cont, setFsState_tc, *]
       try grind
+    · simp [lsSpawnW, hp, setThread, setSig, setPool, setFut, withFault, destroySig]
     · simp [lsRaAt, lsRA, lsTc, lsMinT, hp, hth, hst, hrep, setThread, setSig, setPool, setFut, withFault, destroySig,
         upd_same, Thread.cont, setFsState_tc, setFsState_minT, *]
       try grind
